@@ -16,6 +16,34 @@ pub fn deep_doc(kind: &str, depth: usize, closed: bool) -> String {
             for _ in 0..depth { s.push_str("{\"k\":"); }
             if closed { s.push_str("0"); for _ in 0..depth { s.push('}'); } }
         }
+        // long runs at every place where the grammar iterates without nesting: the stack must not
+        // grow with the length of a whitespace run, a string, a number, or an item list either
+        "ws" => {
+            let w: String = (0..depth).map(|i| [' ', '\n', '\t', '\r'][i % 4]).collect();
+            s.push_str(&w); s.push('['); s.push_str(&w); s.push('1'); s.push_str(&w); s.push(','); s.push_str(&w);
+            s.push('{'); s.push_str(&w); s.push_str("\"k\""); s.push_str(&w); s.push(':'); s.push_str(&w); s.push_str("[]"); s.push_str(&w);
+            s.push(','); s.push_str(&w); s.push_str("\"l\""); s.push_str(&w); s.push(':'); s.push_str(&w); s.push_str("\"s\""); s.push_str(&w);
+            if closed { s.push('}'); s.push_str(&w); s.push(']'); s.push_str(&w); }
+        }
+        "pretty" => {
+            // an indented nested document: the whitespace run before each closing bracket grows with the depth
+            let d = (depth as f64).sqrt() as usize + 1;
+            for i in 0..d { if i % 2 == 0 { s.push('['); } else { s.push_str("{\"a\": 1,\n"); for _ in 0..i { s.push(' '); } s.push_str("\"b\":"); } s.push('\n'); for _ in 0..=i { s.push(' '); } }
+            s.push_str("null");
+            if closed { for i in (0..d).rev() { s.push('\n'); for _ in 0..i { s.push(' '); } s.push(if i % 2 == 0 { ']' } else { '}' }); } }
+        }
+        "long" => {
+            s.push('['); s.push('"');
+            for i in 0..depth { match i % 7 { 0 => s.push_str("\\n"), 1 => s.push_str("\\u00e9"), 2 => s.push_str("\\ud83d\\ude00"), 3 => s.push('é'), _ => s.push('a') } }
+            s.push('"'); s.push(','); s.push('-');
+            for i in 0..depth { s.push((b'1' + (i % 9) as u8) as char); }
+            s.push('.'); for _ in 0..depth { s.push('0'); } s.push_str("e+"); for _ in 0..depth { s.push('7'); }
+            s.push_str(",{");
+            for i in 0..depth { if i > 0 { s.push(','); } s.push_str("\"k\":"); s.push_str(if i % 2 == 0 { "[]" } else { "0" }); }
+            s.push('}');
+            for _ in 0..depth { s.push_str(",null"); }
+            if closed { s.push(']'); }
+        }
         _ => {
             for i in 0..depth { s.push_str(if i % 2 == 0 { "[1, " } else { "{\"a\":true,\"b\": " }); }
             if closed { s.push_str("null"); for i in (0..depth).rev() { s.push_str(if i % 2 == 0 { " ]" } else { "}" }); } }
@@ -111,14 +139,14 @@ pub fn exec(rest: &str, out: &mut Out) -> (String, bool) {
 pub fn gen(out: &mut Out, thorough: bool) {
     let mut l = |s: String, out: &mut Out| crate::exec_line(&s, out);
     let depths: &[usize] = if thorough { &[1000, 10_000, 100_000, 500_000, 1_000_000, 2_000_000] } else { &[1000, 20_000, 200_000] };
-    for kind in ["arr", "obj", "mixed"] {
+    for kind in ["arr", "obj", "mixed", "ws", "pretty", "long"] {
         for &d in depths {
             for closed in ["1", "0"] {
                 l(format!("c03 deep {} {} {}", kind, d, closed), out);
             }
         }
     }
-    out.notes.insert("deep_nesting".into(), format!("depths {:?} x {{arrays, objects, mixed}} x {{closed, unclosed}} parsed and traversed in a 256 KiB-stack thread of a child process", depths));
+    out.notes.insert("deep_nesting".into(), format!("sizes {:?} x {{nested arrays, nested objects, mixed nesting, long whitespace runs at every grammar position, indented nested documents (total size ~ the given number), long strings/numbers/item lists/entry lists}} x {{closed, unclosed}} parsed and traversed in a 256 KiB-stack thread of a child process", depths));
     // single pass: counting iterator on documents, prefixes and damaged documents
     let n_docs = if thorough { 5000 } else { 800 };
     for i in 0..n_docs {
